@@ -35,7 +35,15 @@ pub fn parse_indexed_resp(buf: &mut BytesMut) -> Result<IndexedResp, ParseError>
     Ok(IndexedResp::new(resp, data))
 }
 
+// Neither requests nor Redis replies nest deeper than a few levels.
+// Deeper input is refused instead of being followed recursively until the stack overflows.
+const MAX_NESTED_DEPTH: usize = 32;
+
 pub fn parse_resp(buf: &[u8]) -> Result<(RespIndex, usize), ParseError> {
+    parse_nested_resp(buf, 0)
+}
+
+fn parse_nested_resp(buf: &[u8], depth: usize) -> Result<(RespIndex, usize), ParseError> {
     if buf.is_empty() {
         return Err(ParseError::NotEnoughData);
     }
@@ -65,7 +73,7 @@ pub fn parse_resp(buf: &[u8]) -> Result<(RespIndex, usize), ParseError> {
             Ok((RespIndex::Error(v), 1 + consumed))
         }
         b'*' => {
-            let (mut v, consumed) = parse_array(next_buf)?;
+            let (mut v, consumed) = parse_nested_array(next_buf, depth)?;
             v.advance(1);
             Ok((RespIndex::Arr(v), 1 + consumed))
         }
@@ -77,6 +85,14 @@ pub fn parse_resp(buf: &[u8]) -> Result<(RespIndex, usize), ParseError> {
 }
 
 fn parse_array(buf: &[u8]) -> Result<(ArrayIndex, usize), ParseError> {
+    parse_nested_array(buf, 0)
+}
+
+fn parse_nested_array(buf: &[u8], depth: usize) -> Result<(ArrayIndex, usize), ParseError> {
+    if depth >= MAX_NESTED_DEPTH {
+        return Err(ParseError::InvalidProtocol);
+    }
+
     let (len, mut consumed) = parse_len(buf)?;
     if len < 0 {
         if len != -1 {
@@ -91,7 +107,7 @@ fn parse_array(buf: &[u8]) -> Result<(ArrayIndex, usize), ParseError> {
 
     for _ in 0..array_size {
         let next_buf = buf.get(consumed..).ok_or(ParseError::InvalidProtocol)?;
-        let (mut v, element_consumed) = parse_resp(next_buf)?;
+        let (mut v, element_consumed) = parse_nested_resp(next_buf, depth + 1)?;
         v.advance(consumed);
         consumed += element_consumed;
         array.push(v);
